@@ -178,3 +178,61 @@ package handler
 //@   call executeCallbacks#1: assert arg_strict == strict && arg_next == next
 //@   ensures implies(d1 || dc, pe == nil && vc == httpx.CodeSignaturePass)
 //@   ensures implies(strict, !d2)
+
+// ---------------------------------------------------------------------------------------------
+// C18 cryption middleware: the wrapped handler only ever gets the buffering writer (never the client's writer), it runs
+// after a successful decryption of a non-empty body or not at all (400), the buffered response is encrypted with the same
+// key on every exit, and what reaches the client is base64(EcbEncrypt(key, everything the handler wrote)).
+// ---------------------------------------------------------------------------------------------
+//@ ghost var flushes int
+//@ typeinv (w *cryptionResponseWriter): w.buf != nil
+//@ func LimitCryptionHandler closure 1
+//@   property C18
+//@   ghost at entry: dec = false
+//@   ghost at after newCryptionResponseWriter#0: cw0 = ret
+//@   ghost at after decryptBody#0: dec = (ret == nil)
+//@   call newCryptionResponseWriter#0: assert arg_w == w
+//@   call decryptBody#0: assert arg_limitBytes == limitBytes && sameSlice(arg_key, key) && arg_r == r
+//@   call ServeHTTP#*: assert arg0 == cw0 && arg1 == r && (r.ContentLength <= 0 || dec)
+//@   call flush#0: assert sameSlice(arg_key, key) && arg_recv == cw0
+//@   ensures flushes == old(flushes) + 1 && served <= old(served) + 1
+//@   ensures implies(old(r.ContentLength) > 0 && !dec, served == old(served))
+//@   call WriteHeader#0: assert arg_statusCode == 400 && !dec
+//@   ensures_panic flushes == old(flushes) + 1
+
+//@ func decryptBody
+//@   property C18
+//@   ghost at after EcbDecrypt#0: out = ret0
+//@   call EcbDecrypt#0: assert sameSlice(arg_key, key)
+//@   call Write#0: assert sameSlice(arg_p, out)
+//@   ensures implies(limitBytes > 0 && old(r.ContentLength) > limitBytes, result == errContentLengthExceeded)
+//@   modifies heap
+
+//@ func newCryptionResponseWriter
+//@   property C18
+//@   ensures fresh(result) && result.ResponseWriter == w && result.buf != nil
+//@   modifies nothing
+//@   allocates
+
+// what the handler writes only ever goes into the private buffer
+//@ func (w *cryptionResponseWriter) Write
+//@   property C18
+//@   ensures bufLen[w.buf] == old(bufLen[w.buf]) + len(p) && wTouched[w.ResponseWriter] == old(wTouched[w.ResponseWriter])
+//@   modifies bufLen[w.buf]
+
+//@ func (w *cryptionResponseWriter) WriteHeader
+//@   property C18
+//@   ensures hdrCode[w.ResponseWriter] == statusCode
+//@   modifies hdrCode[w.ResponseWriter], wTouched[w.ResponseWriter]
+//@ func (w *cryptionResponseWriter) flush
+//@   property C18
+//@   ghost at entry: flushes = flushes + 1
+//@   ensures flushes == old(flushes) + 1
+//@   modifies flushes, wTouched[w.ResponseWriter], hdrCode[w.ResponseWriter]
+//@   ghost at after Bytes#0: plain = ret
+//@   ghost at after EcbEncrypt#0: ct = ret0
+//@   ghost at after EncodeToString#0: b64 = ret
+//@   call EcbEncrypt#0: assert sameSlice(arg_key, key) && sameSlice(arg_src, plain)
+//@   call EncodeToString#0: assert sameSlice(arg_src, ct)
+//@   call WriteString#0: assert arg_s == b64 && arg_w == w.ResponseWriter
+//@   ensures implies(old(bufLen[w.buf]) == 0, wTouched[w.ResponseWriter] == old(wTouched[w.ResponseWriter]))
